@@ -60,7 +60,7 @@ def finish(chk, col, pid):
     chk.extra["runs_total"] = len(col.summaries)
     chk.assumptions = [
         "x86_64 only (the aarch64 trampoline is not executed)",
-        "at most 2 concurrently live threads in the exhaustive model configurations and the replayed tours; thousands only in free-running batches",
+        "at most 2 (quick) / 3 (thorough) concurrently live threads in the exhaustive model configurations and the replayed tours; thousands only in free-running batches",
         "kernel steps after a thread's last user-space point (munmap of its own stack, exit, clear-tid store, futex wake) are separate steps in the exhaustive model but one step in the replay (a user-space scheduler cannot interleave them)",
         "happens-before is judged from the memory-ordering argument of the loads of the exit futex word as reported by the tiny_std::verif shim; atomic accesses are sequentially consistent in the model; hardware reorderings are not observed",
         "use after release is judged from the order of announced accesses (protocol points) and logged frees; freed memory is not poisoned",
